@@ -31,3 +31,56 @@ Proof. exact StorageFacts.C15_needs_discipline. Qed.
 Print Assumptions C15_bisim.
 Print Assumptions C15_memmap.
 Print Assumptions C15_discipline_needed.
+
+(* ---- the two machines ARE the source's methods -------------------------------------
+   GenStorage.v is regenerated on every run from traph/storage/memory.py and file.py
+   (methods -> state-transition functions; the file object is the primitive [pyfile]);
+   GenStorageFacts.v proves each method equal to the corresponding step of the machines
+   above, so C15_bisim speaks of MemoryStorage.read/write and FileStorage.read/write as
+   they are written now. *)
+From Traph Require GenStorage GenStorageFacts.
+Import GenStorage GenStorageFacts.
+Theorem C15_source_memory_read : forall bs m b,
+  py_pm_read (PM bs m) (Some b) =
+  (PM bs (fst (mem_step bs m (SRead b))), match snd (mem_step bs m (SRead b)) with RData o => o | _ => None end).
+Proof. exact py_mem_read_at. Qed.
+Theorem C15_source_memory_read_next : forall bs m,
+  py_pm_read (PM bs m) None =
+  (PM bs (fst (mem_step bs m SReadNext)), match snd (mem_step bs m SReadNext) with RData o => o | _ => None end).
+Proof. exact py_mem_read_next. Qed.
+Theorem C15_source_memory_write : forall bs m data b,
+  py_pm_write (PM bs m) data (Some b) =
+  (PM bs (fst (mem_step bs m (SWrite data b))), match snd (mem_step bs m (SWrite data b)) with RBlock x => x | _ => 0 end).
+Proof. exact py_mem_write_at. Qed.
+Theorem C15_source_memory_append : forall bs m data, nlen data = bs ->
+  py_pm_write (PM bs m) data None =
+  (PM bs (fst (mem_step bs m (SAppend data))), match snd (mem_step bs m (SAppend data)) with RBlock x => x | _ => 0 end).
+Proof. exact py_mem_append_block. Qed.
+Theorem C15_source_file_read : forall bs f b,
+  py_pfs_read (PF bs f) (Some b) =
+  (PF bs (fst (file_step bs f (SRead b))), match snd (file_step bs f (SRead b)) with RData o => o | _ => None end).
+Proof. exact py_file_read_at. Qed.
+Theorem C15_source_file_read_next : forall bs f,
+  py_pfs_read (PF bs f) None =
+  (PF bs (fst (file_step bs f SReadNext)), match snd (file_step bs f SReadNext) with RData o => o | _ => None end).
+Proof. exact py_file_read_next. Qed.
+Theorem C15_source_file_write : forall bs f data b,
+  py_pfs_write (PF bs f) data (Some b) =
+  (PF bs (fst (file_step bs f (SWrite data b))), match snd (file_step bs f (SWrite data b)) with RBlock x => x | _ => 0 end).
+Proof. exact py_file_write_at. Qed.
+Theorem C15_source_file_append : forall bs f data,
+  py_pfs_write (PF bs f) data None =
+  (PF bs (fst (file_step bs f (SAppend data))), match snd (file_step bs f (SAppend data)) with RBlock x => x | _ => 0 end).
+Proof. exact py_file_append. Qed.
+Theorem C15_source_file_corruption_test : forall bs f,
+  snd (py_pfs_check_for_corruption (PF bs f)) = negb (nlen (f_data f) mod bs =? 0).
+Proof. exact py_file_corrupt. Qed.
+Print Assumptions C15_source_memory_read.
+Print Assumptions C15_source_memory_read_next.
+Print Assumptions C15_source_memory_write.
+Print Assumptions C15_source_memory_append.
+Print Assumptions C15_source_file_read.
+Print Assumptions C15_source_file_read_next.
+Print Assumptions C15_source_file_write.
+Print Assumptions C15_source_file_append.
+Print Assumptions C15_source_file_corruption_test.
